@@ -335,6 +335,14 @@ def unit_fbank(prop, which):
     return unit
 
 
+def unit_stft_geometry(prop):
+    def unit(tier, known):
+        from contracts import stft_frame as C
+        return run_parallel("stft_geometry", [("contracts.stft_frame", "generate_geometry", (prop,))], to_case=C.to_case_geometry, replay_module="rtc.c02")
+    unit.__name__ = "stft_geometry"
+    return unit
+
+
 UNITS = {
     "C03": [unit_si("C03", w) for w in ("chunk", "handle_skip", "preamble", "finalize", "full", "geometry")] + [unit_si_frame("C03", w) for w in ("fill", "frame", "dft", "idft")],
     "C13": [_lazy("contracts.shorten", "unit_bit_reader", "C13")],
@@ -351,7 +359,7 @@ UNITS = {
     "C09": [unit_torch_stft("C09")] + [_lazy_list("contracts.cli", "units", "C09", k) for k in range(2)],
     "C10": [_lazy_list("contracts.cli", "units", "C10", k) for k in range(3)],
     "C19": [_scales("C19")],
-    "C02": [unit_stft_frame("C02"), unit_stft("C02", "full"), unit_tri("C02", "init"), unit_tri("C02", "truncated"), unit_fbank("C02", "init"), unit_fbank("C02", "truncated")],
+    "C02": [unit_stft_frame("C02"), unit_stft_geometry("C02"), unit_stft("C02", "full"), unit_tri("C02", "init"), unit_tri("C02", "truncated"), unit_fbank("C02", "init"), unit_fbank("C02", "truncated")],
     "C01": [unit_stft("C01", "finalize"), unit_stft("C01", "chunk"), unit_fbf("C01")] + [unit_si("C01", w) for w in ("chunk", "handle_skip", "finalize", "full")] + [unit_si_frame("C01", w) for w in ("fill", "frame", "dft")],
     "C04": [unit_stft("C04", "finalize"), unit_stft("C04", "chunk"), unit_stft("C04", "full"), unit_fbf("C04"), unit_stft_fresh("C04")] +
            [unit_si("C04", w) for w in ("preamble", "finalize", "full", "chunk")],
